@@ -70,6 +70,11 @@ DepAnnTags == {"attributes", "renameto"}      \* DEPRECATED_GI_ANN_TAGS: "Attrib
 ParamNames == <<"p1", "p2", "p3">>
 AnnFaults == {"unbal", "dbl", "empty", "stray", "kv", "unknown", "depann"}   \* depann: deprecated spelling (in-out) / (attribute k v)
 FailingAnnFaults == {"unbal", "dbl", "empty", "stray"}     \* _parse_annotations returns success=False
+\* "a~": the name of the part's first annotation "a" once more, with OTHER options.  Planted (fault "dupparen") at the
+\* head of a continuation line whose last annotation carries a parentheses fault: the line is rejected as a whole,
+\* so the options of "a" must stay what they were (a malformed annotation is ignored rather than half-applied).
+DupId == "a~"
+HasDup(l) == \E i \in 1..Len(l.anns) : l.anns[i] = DupId
 Falsy(d) == d = <<>> \/ d = <<E>>                    \* Python: `not description`
 RangeOf(s) == {s[i] : i \in 1..Len(s)}
 \* deviations of the code from the property that have been triaged (constant Known):
@@ -111,7 +116,8 @@ HasFields(l) == l.anns # <<>> \/ l.t # "none" \/ l.val # ""
 \* A text beginning with a parenthesis reads as one more (bogus) annotation "zz".
 ParseAnns(l, existing) ==
   IF l.af \in FailingAnnFaults
-  THEN [ok |-> FALSE, anns |-> <<>>, changed |-> FALSE, d |-> <<l.af>>, unk |-> FALSE]
+  THEN [ok |-> FALSE, anns |-> <<>>, changed |-> FALSE,
+        d |-> (IF HasDup(l) THEN <<"dupann">> ELSE <<>>) \o <<l.af>>, unk |-> FALSE]     \* 'multiple "x" annotations:' comes first
   ELSE LET seen == l.anns \o (IF l.anns = <<>> /\ l.t = "paren" THEN <<"zz">> ELSE <<>>)
        IN [ok |-> TRUE, anns |-> existing \o seen, changed |-> seen # <<>>,
            d |-> IF l.af \in {"kv", "depann"} THEN <<l.af>> ELSE <<>>, unk |-> l.af = "unknown"]
@@ -422,6 +428,22 @@ GenLateParam(gg, m) ==       \* fault "paramlate": a parameter after the descrip
 \* ---- continuation line of a parameter / tag: "(ann) (ann)[: text]"
 CanAnnotate(gg, m) == gg.ck = "param" \/ CurM(m, gg.ck).name = "returns"
 MaxA(gg) == IF gg.ck = "param" THEN MaxParamAnns ELSE MaxTagAnns
+\* ---- fault "dupparen": continuation line "(a~) (fresh ...) <parentheses fault>" of a field that already has "a"
+DupAFs(gg) == IF MayPlant(gg, "dupparen") THEN FaultKinds \cap FailingAnnFaults ELSE {}
+GenIdContDup(gg, m) ==
+  IF m.name \in NoAnnForms \/ gg.nc >= MaxCont \/ gg.na = 0 \/ gg.na >= MaxIdAnns THEN {}
+  ELSE { Step([Line0 EXCEPT !.ind = x[1], !.anns = <<DupId>> \o Chunk(gg.na, x[2]), !.acolon = x[3], !.af = x[4]],
+              Ign(GAf([gg EXCEPT !.na = @ + x[2], !.nc = @ + 1], x[4]), x[4], <<DupId>> \o Chunk(gg.na, x[2]), "id"),
+              m, "") :
+         x \in Indents \X (1..(MaxIdAnns - gg.na)) \X BOOLEAN \X DupAFs(gg) }
+GenPartContDup(gg, m) ==
+  IF ~CanAnnotate(gg, m) \/ gg.txt > 0 \/ gg.nc >= MaxCont \/ gg.na = 0 \/ gg.na >= MaxA(gg) THEN {}
+  ELSE { Step([Line0 EXCEPT !.ind = x[1], !.anns = <<DupId>> \o Chunk(gg.na, x[2]), !.acolon = x[3], !.af = x[4]],
+              Ign(GAf([gg EXCEPT !.na = @ + x[2], !.nc = @ + 1, !.fs = TRUE], x[4]), x[4],
+                  <<DupId>> \o Chunk(gg.na, x[2]), CurM(m, gg.ck).name),
+              m, "") :
+         x \in Indents \X (1..(MaxA(gg) - gg.na)) \X BOOLEAN \X DupAFs(gg) }
+
 GenPartCont(gg, m) ==
   IF ~CanAnnotate(gg, m) \/ gg.txt > 0 \/ gg.nc >= MaxCont THEN {}
   ELSE { LET k == x[2]  tk == x[4]
@@ -519,10 +541,10 @@ GenClasses == {"ident", "noident", "idcont", "param", "lateparam", "partcont", "
 GenClass(c, gg, m) ==
   CASE c = "ident"     -> GenIdent(gg, m)
     [] c = "noident"   -> GenNoIdent(gg, m)
-    [] c = "idcont"    -> GenIdCont(gg, m)
+    [] c = "idcont"    -> GenIdCont(gg, m) \cup GenIdContDup(gg, m)
     [] c = "param"     -> GenParam(gg, m)
     [] c = "lateparam" -> GenLateParam(gg, m)
-    [] c = "partcont"  -> GenPartCont(gg, m)
+    [] c = "partcont"  -> GenPartCont(gg, m) \cup GenPartContDup(gg, m)
     [] c = "parttext"  -> GenPartText(gg, m)
     [] c = "sep"       -> GenSep(gg, m)
     [] c = "tagempty"  -> GenTagEmpty(gg, m)
@@ -559,6 +581,7 @@ Conseq(l) == IF l.k = "tag" THEN {"tagunexpected"}
                   THEN {"nocolon", "unknown"}   \* text beginning with a parenthesis, read as annotations once the part lost its description
              ELSE {}
 Permits(src, l, fk, nf) == {<<src, kd>> : kd \in (IF fk # "" THEN FaultDiagKinds(fk) ELSE {})
+                                                 \cup (IF fk # "" /\ HasDup(l) THEN {"dupann"} ELSE {})
                                                  \cup (IF nf > 0 THEN Conseq(l) ELSE {})}
 
 Opens == {"alone"} \cup (IF MaxFaults > 0 THEN FaultKinds \cap {"codebefore", "opentext", "oneline"} ELSE {})
